@@ -56,6 +56,12 @@ fn plan(prop: &str, tier: &str) -> Plan {
             p.enum_empty = vec![];
             p.enum_shapes = vec![];
         }
+        "C17" => {
+            p.random_cases = if quick { 1600 } else { 10_000 };
+            p.long_cases = if quick { 0 } else { 800 };
+            p.enum_empty = vec![(3, 3)];
+            p.enum_shapes = vec![];
+        }
         "C16" => {
             p.enum_empty = vec![];
             p.enum_shapes = vec![];
@@ -130,13 +136,14 @@ fn main() {
             }
             std::process::exit(run::<Plain>(&args, &prop, seed, &build, prof, cfg))
         }
+        "run" if prop == "C17" => std::process::exit(run::<Plain>(&args, &prop, seed, &build, prof, cfg)),
         "run" => std::process::exit(run::<Tracked>(&args, &prop, seed, &build, prof, cfg)),
         "replay" => {
             let file = arg(&args, "--file").expect("--file");
             let rf: ReplayFile = serde_json::from_str(&std::fs::read_to_string(&file).expect("read replay")).expect("parse replay");
             let prof = Profile::for_prop(&rf.profile);
             let cfg = cfg_for(&prop, &[]);
-            let run = if rf.profile == "C16" { eval_case::<Plain>(&rf.ops, &prof, &cfg, true) } else { eval_case::<Tracked>(&rf.ops, &prof, &cfg, true) };
+            let run = if rf.profile == "C16" || rf.profile == "C17" { eval_case::<Plain>(&rf.ops, &prof, &cfg, true) } else { eval_case::<Tracked>(&rf.ops, &prof, &cfg, true) };
             for l in &run.trace {
                 println!("  {l}");
             }
@@ -157,6 +164,14 @@ fn main() {
                 std::process::exit(1);
             }
             println!("REPLAY-PASSES property={prop} file={file}");
+        }
+        "digest" => {
+            // print the observation digest of one history under this build (C17 replay)
+            let file = arg(&args, "--file").expect("--file");
+            let rf: ReplayFile = serde_json::from_str(&std::fs::read_to_string(&file).expect("read replay")).expect("parse replay");
+            let prof = Profile::for_prop(&rf.profile);
+            let run = eval_case::<Plain>(&rf.ops, &prof, &cfg_for(&prop, &[]), false);
+            println!("DIGEST {:016x} failed={}", run.digest, run.fail.is_some());
         }
         "emit" => {
             let w: u64 = arg(&args, "--worker").and_then(|s| s.parse().ok()).unwrap_or(0);
